@@ -116,6 +116,18 @@ struct Run : ContBase {
     }
     void do_resize() {
         long n = (long)m.size();
+        if (s.chance(1, 10)) {
+            // a capacity nobody can provide: the request must be refused without any effect
+            size_t huge = (size_t)-1 / objsize - (size_t)s.range(0, 3);
+            size_t max0 = v->max, num0 = v->num; void *data0 = v->data;
+            errno = poison;
+            bool ok = qvector_resize(v, huge);
+            c.op("resize(SIZE_MAX/objsize) n=%ld", n);
+            seei(ok);
+            if (ok) c.fail(FUNC, "vector:resize-huge", "resize to %zu elements of %zu bytes reported success", huge, objsize);
+            if (v->max != max0 || v->num != num0 || v->data != data0) c.fail(FUNC, "vector:resize-refused-effect", "a refused resize changed the vector: capacity %zu -> %zu, count %zu -> %zu", max0, v->max, num0, v->num);
+            return;
+        }
         size_t nm = s.chance(1, 4) ? 0 : (size_t)s.range(0, 2 * n + 3);
         bool ok = qvector_resize(v, nm);
         c.op("resize(%zu) n=%ld cap=%zu", nm, n, cap);
